@@ -94,9 +94,12 @@ Deliver, in {d}:
                       "demo_file": "{d}/demo/zz_demo_test.go",
                       "demo_dest": "<path relative to the repo root where the demo is copied, e.g. trie/zz_demo_test.go>"}}
 
-Before you finish, verify all of this yourself: apply-ability of patch.diff on a clean tree
-(`git stash` / `git apply --check`), the full suite passing with the change, the demo failing
-with the change and passing without it (`git stash` the change, keep the demo). Leave the
+Before you finish, verify all of this yourself: apply-ability of patch.diff on a clean tree,
+the full suite passing with the change, the demo failing with the change and passing without it.
+NEVER use `git stash`: the stash is shared by all worktrees of this repository and other people
+work in sibling worktrees at the same time. To get a clean tree use `git apply -R patch.diff`
+(and `git apply patch.diff` to put the change back), or `git checkout -- .` followed by
+`git apply patch.diff`. Leave the
 worktree with your change applied and the demo file NOT inside it (keep it only under {d}/demo).
 Report in your final message: a three-line description, and the outcome of each verification step.
 """
